@@ -365,18 +365,24 @@ def r045_counts(ctx):
     rc = A3.run(cls + ".__call__", cls_ctx=cls)
     op = mk("attr", rc.self_term, "_operator")
     bad = []
+    from ..region import specialise
     for o in (">", "<", ">=", "x"):
         env = {op: o}
-        try:
-            raised = any(e.kind == "raise" and pc_holds(e.pc, env) for e in rc.events)
-        except (Unmodelled, Raised):
-            raised = None
+        got = specialise(rc.ret, env) if rc.ret is not None else None
+        # raise events whose path condition is decided true under this operator
+        raised = False
+        for e in rc.events:
+            if e.kind != "raise":
+                continue
+            try:
+                if pc_holds(e.pc, env):
+                    raised = True
+            except (Unmodelled, Raised):
+                pass
         if o in (">", "<"):
-            from .c17 import _select
-            got = _select(rc.ret, env)
             want = A3.entry(rc, f"y_hat {o} self._threshold")
-            if raised or not A3.eq(got, want):
-                bad.append(f"operator {o!r}: {A3.show(got, 80)}")
+            if raised or got is None or not A3.eq(got, want):
+                bad.append(f"operator {o!r}: returns {A3.show(got, 120) if got is not None else 'nothing'} instead of y_hat {o} threshold")
         elif not raised:
             bad.append(f"operator {o!r} is accepted")
     ctx.exhaustive_spaces.append("ThresholdOperation.__call__: operators '>', '<', other")
